@@ -251,10 +251,10 @@ def judge (σ : Spec.MemView.ByteMap) (rows : List (Option Nat)) :
         match Spec.NumParse.addrExpected s with
         | none => argErr "address with a malformed argument"
         | some a =>
-          let target := Spec.MemView.addrIndex rows a
-          let tg := if target.isSome then
-              (if (Spec.MemView.get σ a).isSome then "addr-hit" else "addr-absent-in-window")
-            else "addr-miss"
+          let stored := (Spec.MemView.get σ a).isSome
+          let target := Spec.MemView.addrIndexStored stored rows a
+          let tg := if stored then "addr-hit"
+            else if (Spec.MemView.addrIndex rows a).isSome then "addr-absent-in-window" else "addr-miss"
           let st' := { st with tags := st.tags ++ [tg] }
           match target with
           | some i =>
@@ -262,7 +262,7 @@ def judge (σ : Spec.MemView.ByteMap) (rows : List (Option Nat)) :
                 else st'.fails ++ [s!"address {a}: expected `ok {i}` (the row of window {Spec.MemView.windowOf a})"] }
           | none =>
             judge σ rows cs rest { st' with fails := if ans == ["err", toString st'.cursor] then st'.fails
-                else st'.fails ++ [s!"address {a}: expected `err {st'.cursor}` (no row contains it)"] }
+                else st'.fails ++ [s!"address {a}: expected `err {st'.cursor}` (no stored range contains it)"] }
       | .goto n => if n > maxInt then argErr "goto" else expectMove (setCur rows.length n) s!"goto {n}"
       | .up n => if n > maxInt then argErr "up" else expectMove (setCur rows.length ((st.cursor : Int) - n)) s!"up {n}"
       | .down n =>
